@@ -280,7 +280,7 @@ func runGio(c *Ctx) {
 					}
 					if isCbType(v.Type()) {
 						cb = v
-					} else {
+					} else if hasMethod(v.Type(), "Close") {
 						streams = append(streams, v)
 					}
 				}
@@ -293,7 +293,26 @@ func runGio(c *Ctx) {
 				g := prepare(c, p)
 				closes := map[*types.Var]int{}
 				cbs := 0
+				made := map[*types.Var]bool{} // locals assigned from make(...) inside the pump
 				for i, ev := range p.Events {
+					if ev.Kind == core.KAssign && !ev.FieldInit && ev.Rhs != nil && ev.RhsIdx < 0 {
+						if v := identVar(ev.Lhs, ev.Frame); v != nil && !v.IsField() {
+							call, isCall := unparen(ev.Rhs).(*ast.CallExpr)
+							isMake := false
+							if isCall {
+								if id, ok := unparen(call.Fun).(*ast.Ident); ok && id.Name == "make" {
+									isMake = true
+								}
+							}
+							made[v] = isMake && frameWithinEntry(ev.Frame)
+						}
+					}
+					if ev.Kind == core.KCall && ev.Callee != nil && ev.Callee.Pkg() != nil && ev.Callee.Pkg().Path() == "io" && ev.Callee.Name() == "CopyBuffer" && len(ev.Call.Args) == 3 {
+						bv := identVar(ev.Call.Args[2], ev.Frame)
+						a.note("R13c", pname+"/own-copy-buffer", ev.Pos, !(bv != nil && made[bv]) && !isNilExpr(ev.Call.Args[2], ev.Frame),
+							"each pump copies through a buffer it allocated itself (or nil)",
+							"the pump hands io.CopyBuffer a buffer it did not allocate itself: the two directions run concurrently and overwrite each other's chunk between a Read and the Write that follows it", p)
+					}
 					if (ev.Kind == core.KCall || ev.Kind == core.KEnter) && ev.Callee != nil && ev.Callee.Name() == "Close" {
 						if sel, ok := unparen(ev.Call.Fun).(*ast.SelectorExpr); ok {
 							if v := identVar(sel.X, ev.Frame); v != nil {
@@ -502,6 +521,92 @@ func runGio(c *Ctx) {
 func runGcodec(c *Ctx) {
 	a := newAgg(c)
 	defer a.flush()
+	// --- R14a padding: a re-slice of the received buffer beyond its length stays within its capacity
+	if d := c.declByName("R14a", "padding", "", "PadInPlace"); d != nil {
+		name := core.FuncName(d.Obj)
+		pv := paramVars(d)
+		c.Walk("R14a", &core.Config{Follow: samePkgFollow(d.Pkg.PkgPath)}, core.Entry{Decl: d}, func(p *core.Path) {
+			g := prepare(c, p)
+			for i, ev := range p.Events {
+				if ev.Kind != core.KAssign || ev.Rhs == nil || len(pv) == 0 || pv[0] == nil {
+					continue
+				}
+				se, ok := unparen(ev.Rhs).(*ast.SliceExpr)
+				if !ok || se.High == nil || identVar(se.X, ev.Frame) != pv[0] {
+					continue
+				}
+				// High = v + k
+				h := unparen(se.High)
+				k := 0
+				for {
+					be, isBin := h.(*ast.BinaryExpr)
+					if !isBin || (be.Op != token.ADD && be.Op != token.SUB) {
+						break
+					}
+					tv, has := ev.Frame.Info().Types[unparen(be.Y)]
+					if !has || tv.Value == nil {
+						break
+					}
+					cv, exact := constantInt(tv)
+					if !exact {
+						break
+					}
+					if be.Op == token.ADD {
+						k += cv
+					} else {
+						k -= cv
+					}
+					h = unparen(be.X)
+				}
+				vTerm, okT := g.builderAt(i).term(h, ev.Frame)
+				capTerm := "cap(" + c.Role(pv[0]) + ")"
+				best, have := 0, false
+				if okT {
+					for j := 0; j < i; j++ {
+						if b := p.Events[j]; b.Kind == core.KBranch {
+							if ub, ok := diffUpperBound(g, j, b, vTerm, capTerm); ok && (!have || ub < best) {
+								best, have = ub, true
+							}
+						}
+					}
+				}
+				a.note("R14a", name+"/extend-within-capacity", se.Pos(), !(have && best <= -k),
+					"a re-slice of the received buffer is dominated by a comparison that keeps its bound within cap()",
+					sprintf("%s re-slices the received buffer to a bound that the comparisons on this path keep at most %d above cap() (none: %v), where at most %d is needed: a buffer whose capacity is just short of the padded length makes the slice expression panic", core.ExprString(se), best, !have, -k), p)
+			}
+		})
+		a.expect("R14a", name+"/extend-within-capacity", 1, "data = data[:n] in PadInPlace")
+	}
+	// --- commonprefix: TrimPrefix removes what Prefix computes — a path that does not consult Prefix has
+	// shown the argument list empty
+	if d := c.declByName("R14b", "commonprefix", "", "TrimPrefix"); d != nil {
+		name := core.FuncName(d.Obj)
+		pv := paramVars(d)
+		c.Walk("R14b", &core.Config{}, core.Entry{Decl: d}, func(p *core.Path) {
+			if p.End != core.EndReturn || len(pv) == 0 || pv[0] == nil {
+				return
+			}
+			g := prepare(c, p)
+			consulted := false
+			for _, ev := range p.Events {
+				if ev.Kind == core.KCall && ev.Callee != nil && core.FuncName(ev.Callee) == "commonprefix.Prefix" {
+					consulted = true
+				}
+			}
+			L := "len(" + c.Role(pv[0]) + ")"
+			lits := g.litsBefore(len(p.Events), false)
+			empty := false
+			for _, w := range []*formula{eq("0", L), lt(L, "1"), fnot(lt("0", L))} {
+				if ok, _ := implies(lits, w); ok && len(lits) > 0 {
+					empty = true
+				}
+			}
+			a.note("R14b", name+"/consults-prefix", d.Decl.Pos(), !(consulted || empty),
+				"every path computes Prefix of its arguments, or has shown there are none",
+				"a path of TrimPrefix returns without computing Prefix although arguments may be present: the strings keep a prefix that Prefix reports as common (TrimPrefix and Prefix disagree)", p)
+		})
+		a.expect("R14b", name+"/consults-prefix", 1, "paths of TrimPrefix")
+	}
 	// --- R14a padding
 	if d := c.declByName("R14a", "padding", "", "UnpadInPlace"); d != nil {
 		name := core.FuncName(d.Obj)
@@ -967,6 +1072,100 @@ func runGqueue(c *Ctx) {
 		})
 		a.expect("R10", name+"/one-atomic-section", 1, "paths of "+fn)
 	}
+	// --- LinkedList representation invariant: head == nil ⇔ tail == nil. The methods test emptiness on
+	// either field (Peek/Pop/IsEmpty on head, PeekTail and the append on tail), so every path of every
+	// method that assumes the invariant on entry must re-establish it: nil-ness of the two fields is
+	// followed through the path's assignments and branch decisions.
+	const (
+		headF = "linkedlist.LinkedList.head"
+		tailF = "linkedlist.LinkedList.tail"
+	)
+	for _, d := range pkgDecls(c, "linkedlist") {
+		d := d
+		if rn := core.RecvNamed(d.Obj); rn == nil || rn.Obj().Name() != "LinkedList" {
+			continue
+		}
+		writes := false
+		ast.Inspect(d.Decl.Body, func(n ast.Node) bool {
+			if _, ok := assignsFieldNode(d, n, headF); ok {
+				writes = true
+			}
+			if _, ok := assignsFieldNode(d, n, tailF); ok {
+				writes = true
+			}
+			return true
+		})
+		if !writes {
+			continue
+		}
+		name := core.FuncName(d.Obj)
+		c.Walk("R10", &core.Config{}, core.Entry{Decl: d}, func(p *core.Path) {
+			if p.End != core.EndReturn {
+				return
+			}
+			g := prepare(c, p)
+			// nil-ness: 0 unknown, 1 nil, 2 non-nil; -1 = unchanged since entry
+			st := map[string]int{headF: -1, tailF: -1}
+			firstWrite := len(p.Events)
+			freshLocal := map[*types.Var]bool{}
+			for i, ev := range p.Events {
+				if ev.Kind != core.KAssign || ev.FieldInit {
+					continue
+				}
+				if v := identVar(ev.Lhs, ev.Frame); v != nil && !v.IsField() {
+					freshLocal[v] = ev.Rhs != nil && ev.RhsIdx < 0 && isFreshExpr(ev.Rhs, ev.Frame.Info())
+				}
+				for _, f := range []string{headF, tailF} {
+					if !assignsField(ev, f, "") {
+						continue
+					}
+					if i < firstWrite {
+						firstWrite = i
+					}
+					switch {
+					case ev.Rhs == nil || ev.RhsIdx >= 0:
+						st[f] = 0
+					case isNilExpr(ev.Rhs, ev.Frame):
+						st[f] = 1
+					case identVar(ev.Rhs, ev.Frame) != nil && freshLocal[identVar(ev.Rhs, ev.Frame)]:
+						st[f] = 2
+					default:
+						st[f] = 0
+						if t, ok := g.builderAt(i).term(ev.Rhs, ev.Frame); ok {
+							if nn, _ := implies(g.litsBefore(i, false), fnot(eq("nil", t))); nn {
+								st[f] = 2
+							} else if isn, _ := implies(g.litsBefore(i, false), eq("nil", t)); isn {
+								st[f] = 1
+							}
+						}
+					}
+				}
+			}
+			// what the path learnt about the entry state (before its first write), by the invariant
+			// the same for both fields
+			entry := 0
+			pre := g.litsBefore(firstWrite, false)
+			for _, f := range []string{headF, tailF} {
+				if isn, _ := implies(pre, eq("nil", f)); isn && len(pre) > 0 {
+					entry = 1
+				} else if nn, _ := implies(pre, fnot(eq("nil", f))); nn && len(pre) > 0 {
+					entry = 2
+				}
+			}
+			h, t := st[headF], st[tailF]
+			if h == -1 {
+				h = entry
+			}
+			if t == -1 {
+				t = entry
+			}
+			ok := st[headF] == -1 && st[tailF] == -1 || (h == t && h != 0)
+			a.note("R10", name+"/head-tail-agree", d.Decl.Pos(), !ok,
+				"every path leaves head and tail both nil or both non-nil (assuming the same on entry)",
+				sprintf("a path can leave the list with head %s and tail %s: the methods that test emptiness on the other field (PeekTail / the append in pushElem vs Peek/Pop/IsEmpty) then disagree — an element already removed is reported, or an append is lost",
+					[]string{"of unknown nil-ness", "nil", "non-nil"}[h], []string{"of unknown nil-ness", "nil", "non-nil"}[t]), p)
+		})
+	}
 }
 
 // diffUpperBound: if the branch event compares (v + a) with (len + b), return the upper bound it
@@ -989,6 +1188,14 @@ func diffUpperBound(g *gpath, j int, b *core.Event, vTerm, lenTerm string) (int,
 	lin := func(e ast.Expr) (hasV, hasL bool, k int, ok bool) {
 		// linear form: term, term - c, term + c, c
 		e = unparen(e)
+		if t0, ok0 := gb.term(e, b.Frame); ok0 {
+			switch t0 {
+			case vTerm:
+				return true, false, 0, true
+			case lenTerm:
+				return false, true, 0, true
+			}
+		}
 		// a local that names a sum/difference (end := len(data) - 1) is looked through
 		if id, isId := e.(*ast.Ident); isId {
 			if v := identVar(id, b.Frame); v != nil {
@@ -1139,3 +1346,16 @@ func callRecv(call *ast.CallExpr) ast.Expr {
 	}
 	return nil
 }
+
+// hasMethod: the type's method set (pointer receiver included) has a method of that name.
+func hasMethod(t types.Type, name string) bool {
+	if o, _, _ := types.LookupFieldOrMethod(t, true, nil, name); o != nil {
+		_, ok := o.(*types.Func)
+		return ok
+	}
+	return false
+}
+
+// frameWithinEntry: the frame belongs to the walked entry (always true for events of a walk; kept to
+// state the intent: the buffer is made inside the pump).
+func frameWithinEntry(fr *core.Frame) bool { return fr != nil }
